@@ -343,7 +343,7 @@ func showInTag(env *env, out io.Writer, value any) error {
 	var s2 *strings.Builder
 	for j, c := range s {
 		if (c == utf8.RuneError && j == i+1) ||
-			c <= 0x1F || c == '"' || c == '\'' || c == '>' || c == '/' || c == '=' ||
+			c <= 0x20 || c == '"' || c == '\'' || c == '>' || c == '/' || c == '=' ||
 			0x7F <= c && c <= 0x9F || unicode.Is(unicode.Noncharacter_Code_Point, c) {
 			if s2 == nil {
 				s2 = &strings.Builder{}
